@@ -352,7 +352,7 @@ func (e *Engine) frameObligations(vc *VC, fx *fexec, sc *SpecCtx, c *Contract, e
 }
 
 func (e *Engine) verifyLemma(l *Lemma) *VC {
-	c := &Contract{Pkg: l.Pkg, Name: "lemma." + l.Name, Arith: l.Arith}
+	c := &Contract{Pkg: l.Pkg, Name: "lemma." + l.Name, Arith: l.Arith, Strings: l.Strings}
 	vc := newVC(e, shortKey(l.Pkg)+".lemma:"+l.Name, c)
 	defer func() {
 		if r := recover(); r != nil {
